@@ -254,3 +254,5 @@ def run(ctx, R, tier):
     lk = ctx.fn("Pyro5.nameserver.NameServer.lookup")
     okl = any(isinstance(n, ast.Assign) and isinstance(n.value, ast.Call) and ctx.resolves_to_object(n.value.func, lk, U) for n in walk_no_nested(lk.node))
     R.check(okl, "C19-R5", "NameServer.lookup|reparses", "lookup re-parses the stored text with core.URI", lk.loc(), "lookup no longer returns core.URI(stored text)")
+    from .common import sql_setitem_writes_uri
+    sql_setitem_writes_uri(ctx, R, "C19-R5")
